@@ -283,6 +283,9 @@ def tokEvents (t : String) : Option (List ReaderClose.Event) :=
   | ["bc", _] => some [.connClose, .coordClose]
   | ["fq"] => some [.fetchReq]
   | ["lk", _] => some []
+  | ["to", _] => some []                        -- a call the driver waited for during the whole watchdog bound (monitor)
+  | ["lo", _] => some []                        -- connections of the Reader's lag monitor: censused (`oc`), not ordered
+  | ["lc", _] => some []
   | ["oc", _] => some []
   | ["ci"] => some []
   | ["rl"] => some []
@@ -378,7 +381,7 @@ def holds (toks : List String) : Bool :=
          | _ => true)
       else (res != "ctx" || cancelled) && (res != "eof" || xb.isSome) && (res != "closed" || xb.isSome) && (res != "gclosed" || xb.isSome)
   -- M7 census
-  let m7 := toks.all fun (t : String) => !(t.startsWith "lk/" || t.startsWith "oc/") || t == "lk/0" || t == "oc/0"
+  let m7 := toks.all fun (t : String) => !(t.startsWith "lk/" || t.startsWith "oc/" || t.startsWith "to/") || t == "lk/0" || t == "oc/0"
   -- M8 each connection the Reader / ConsumerGroup opened (fetcher `bo/n`, coordinator `co/n`) is closed, once,
   -- before Close returns
   let m8 := xr.isNone || toks.all fun (t : String) =>
@@ -394,7 +397,7 @@ def holdsT (toks : List String) : Bool :=
   calls.all (fun c => toks.contains s!"rr/{c}/ctx" || (toks.contains s!"rr/{c}/err" || toks.contains s!"rr/{c}/ok") && !toks.contains s!"cx/{c}"
     -- a call whose answer arrived before its context ended may return it
     || toks.contains s!"rr/{c}/ok") &&
-  toks.all fun (t : String) => !(t.startsWith "lk/" || t.startsWith "oc/") || t == "lk/0" || t == "oc/0"
+  toks.all fun (t : String) => !(t.startsWith "lk/" || t.startsWith "oc/" || t.startsWith "to/") || t == "lk/0" || t == "oc/0"
 
 def simulateT (toks : List String) : String :=
   match simulate false toks with
@@ -667,7 +670,7 @@ def replay (evs : List Ev) : String := Id.run do
   return "ok"
 
 /-- monitor on the raw events: at CloseReturn every batch created has been completed (after exactly one Completion
-callback when any is configured), every partition writer's sender has exited, and nothing happens afterwards -/
+callback when any is configured), every partition writer's sender has exited, and nothing happens afterwards but refused calls and repeated Closes -/
 def holds (evs : List Ev) : Bool :=
   let z := evs.zipIdx
   match (z.find? fun x => x.1 == .closeReturn).map (·.2) with
@@ -681,7 +684,8 @@ def holds (evs : List Ev) : Bool :=
     batches.all (fun b => before.contains (.complete b) &&
       (!anyCompletion || (before.filter (· == .completion b)).length == 1)) &&
     queues.all (fun q => before.contains (.senderExit q)) &&
-    after.all (fun e => match e with | .enter false => true | .enter true => false | _ => false)
+    -- afterwards: refused calls, and further (no-op) Closes
+    after.all (fun e => match e with | .enter false => true | .closeBegin | .closeMarked | .closeReturn => true | _ => false)
 
 def run (trace : String) : String × Bool :=
   let toks := if trace == "-" then [] else (trace.splitOn ";").filter (· ≠ "")
